@@ -124,7 +124,11 @@ def main():
             continue
         if not c.get("impl_only"):
             m = model.get(id(c))
-            if m is None or canon(c, r) != canon(c, m):
+            if hasattr(P, "tie_check"):
+                d = "model driver gave no reply" if m is None else P.tie_check(c, r, m)
+                if d:
+                    disagreements.append({"case": c, "impl": r[:2000], "model": (m or "")[:2000], "why": d})
+            elif m is None or canon(c, r) != canon(c, m):
                 disagreements.append({"case": c, "impl": r, "model": m})
         why = P.oracle(c, r)
         if why:
